@@ -600,6 +600,9 @@ func checkC17(c *Ctx, r *Report, tier string) {
 	workerErrorsSent(c, r, "C17.R3", worker)
 	r.Rule("C17.R4", "a size that could not be obtained fails every caller up to the RPC: each call into the size chain (SizeInfo, Len, BytesSize, List, …) has its own error tested or forwarded, never merged with later results or overwritten", 3)
 	sizeErrorsPropagate(c, r, "C17.R4")
+	r.Rule("C17.R5", "every replica reports the same partition: a restored index resets its counters on every successful return; applying a replica change always rewrites the member list (which decides whether a node counts its local index or asks a peer)", 5)
+	restoreResetsBeforeSuccess(c, r, "C17.R5")
+	replicatedWriteNotConditionalOnLocalState(c, r, "C17.R5")
 	// collector: the select loop returns error for non-nil message and ctx.Done
 	okColl := false
 	okDone := false
